@@ -158,6 +158,9 @@ func intPool(t string, rng *rand.Rand, heavy bool) []uint64 {
 		mask = 1<<n - 1
 	}
 	p := []uint64{0, 1, 2, mask, mask - 1, 1 << (n - 1), 1<<(n-1) - 1, 1<<(n-1) + 1, 1 << (n / 2), 0x5555555555555555 & mask, 0xaaaaaaaaaaaaaaaa & mask, uint64(n), uint64(n + 1), 7, 3}
+	if n == 64 { // around what fits a sign-extended 32-bit immediate
+		p = append(p, 0xffffffff00000005, 0xffffffff7fffffff, 0xffffffff80000000, 0x00000000ffffffff, 0x0000000080000000, 0x000000007fffffff, 0xfffffffeffffffff)
+	}
 	for i := 0; i < nRand; i++ {
 		p = append(p, rng.Uint64()&mask)
 	}
@@ -519,6 +522,12 @@ func Check(args []string) {
 							b = append(b, constInstr(d.t, fromBytes(c.B))...)
 						}
 						cm.AddFunc(wb.Func{Results: []wasm.ValueType{vt(d.res)}, Body: append(b, opBytes(d.wasm)...), Export: fmt.Sprintf("c%d", i)})
+						if d.binary { // one operand a constant, the other the caller's: what an immediate-operand encoding sees
+							cm.AddFunc(wb.Func{Params: []wasm.ValueType{vt(d.t)}, Results: []wasm.ValueType{vt(d.res)},
+								Body: wb.Cat(wb.LocalGet(0), constInstr(d.t, fromBytes(c.B)), opBytes(d.wasm)), Export: fmt.Sprintf("pc%d", i)})
+							cm.AddFunc(wb.Func{Params: []wasm.ValueType{vt(d.t)}, Results: []wasm.ValueType{vt(d.res)},
+								Body: wb.Cat(constInstr(d.t, fromBytes(c.A)), wb.LocalGet(0), opBytes(d.wasm)), Export: fmt.Sprintf("cp%d", i)})
+						}
 					}
 					cmod, err := rt.InstantiateWithConfig(ctx, cm.Build(), wazero.NewModuleConfig().WithName(""))
 					if err != nil {
@@ -531,6 +540,19 @@ func Check(args []string) {
 							v = r[0]
 						}
 						compare(c, "consts", v, err, d.res)
+						if d.binary {
+							for _, f := range []struct {
+								name string
+								arg  uint64
+							}{{"pc", fromBytes(c.A)}, {"cp", fromBytes(c.B)}} {
+								r, err := cmod.ExportedFunction(fmt.Sprintf("%s%d", f.name, i)).Call(ctx, f.arg)
+								v = 0
+								if err == nil {
+									v = r[0]
+								}
+								compare(c, map[string]string{"pc": "param-const", "cp": "const-param"}[f.name], v, err, d.res)
+							}
+						}
 					}
 					cmod.Close(ctx)
 				}
